@@ -21,7 +21,24 @@ type sessConn struct {
 	Cert    string    `json:"cert,omitempty"`
 	Traffic int       `json:"traffic,omitempty"` // stanzas pushed after a successful negotiation
 	NoDial  bool      `json:"nodial,omitempty"`  // nothing listens: the TCP connection is refused
+	// C04, application sends from another goroutine (client.Send of a <message/> carrying a unique marker):
+	// SendDuring: NDuring sends made WHILE this connection attempt runs: "starttls" = as soon as the server holds the
+	// client's <starttls/> (the script withholds its answer), "certfail" = as soon as the server's TLS handshake has
+	// failed (the client refused the certificate and keeps the connection for ConnectTimeout); the connection is cut
+	// afterwards. SendAfter: sends made after connect() has returned, before traffic / the cut.
+	SendDuring string `json:"send_during,omitempty"`
+	NDuring    int    `json:"n_during,omitempty"`
+	SendAfter  int    `json:"send_after,omitempty"`
 }
+
+// sendObs: what became of one application send: the error Send returned, and where the server saw the marker
+// ("" nowhere, "clear": in the bytes received outside TLS, "tls": in the decrypted stream).
+type sendObs struct {
+	Err   error
+	Where string
+}
+
+const sendMarker = "xvgate-"
 
 type sessIn struct {
 	Insecure   bool       `json:"insecure,omitempty"`
@@ -229,6 +246,7 @@ type sessObs struct {
 	before  []sessSnap
 	after   []sessSnap
 	tlsLogs []string
+	sends   [][]sendObs // per connection: the sends during the attempt, then those after it (C04)
 }
 type sessSnap struct {
 	has     bool
@@ -255,6 +273,9 @@ func runSessionRaw(in sessIn) (*sessObs, Sx) {
 		sc := connScript{Groups: c.Groups, Cert: c.Cert, IdleDropMs: 400, StallDropMs: 3000}
 		if in.Patient {
 			sc.PeekMs = 4
+		}
+		if c.SendDuring == "certfail" {
+			sc.LingerMs = 3000
 		}
 		scripts = append(scripts, sc)
 	}
@@ -323,12 +344,86 @@ func runSessionRaw(in sessIn) (*sessObs, Sx) {
 		}
 		done := make(chan error, 1)
 		go func() { done <- xmpp.VerifClientConnect(client) }()
+		var sends []sendObs
+		var markers []string
+		appSend := func(tag string) {
+			m := fmt.Sprintf("%s%d-%s", sendMarker, len(conns), tag)
+			err := client.Send(stanza.Message{Attrs: stanza.Attrs{Id: m, To: "peer@" + srvDomain, Type: stanza.MessageTypeChat}, Body: m})
+			sends = append(sends, sendObs{Err: err})
+			markers = append(markers, m)
+		}
+		// where did the markers show up at the server? A send that returned nil is waited for (it must arrive
+		// somewhere); one that returned an error is given a moment in which it must not arrive.
+		locate := func() {
+			quiet := time.Now().Add(20 * time.Millisecond) // refused sends: nothing may show up meanwhile
+			giveUp := time.Now().Add(2 * time.Second)
+			for {
+				logs := srv.snapshot()
+				missing := false
+				if srvIdx < len(logs) {
+					lg := logs[srvIdx]
+					outside := string(lg.ClearBy) + "\x00" + string(lg.RawBy)
+					for j, m := range markers {
+						switch {
+						case strings.Contains(outside, m):
+							sends[j].Where = "clear"
+						case strings.Contains(string(lg.SecureBy), m):
+							sends[j].Where = "tls"
+						case sends[j].Err == nil:
+							missing = true
+						}
+					}
+				}
+				now := time.Now()
+				if now.After(giveUp) || (!missing && (allErrNil(sends) || now.After(quiet))) {
+					return
+				}
+				time.Sleep(300 * time.Microsecond)
+			}
+		}
+		if c.SendDuring != "" && !c.NoDial {
+			trigger := time.Now().Add(5 * time.Second)
+			for time.Now().Before(trigger) {
+				logs := srv.snapshot()
+				hit := false
+				if srvIdx < len(logs) {
+					switch c.SendDuring {
+					case "starttls":
+						for _, e := range logs[srvIdx].Elems {
+							hit = hit || e.Kind == "starttls"
+						}
+					case "certfail":
+						hit = logs[srvIdx].TLS == "handshake-error"
+					}
+				}
+				if hit {
+					break
+				}
+				time.Sleep(200 * time.Microsecond)
+			}
+			n := c.NDuring
+			if n < 1 {
+				n = 1
+			}
+			for j := 0; j < n; j++ {
+				appSend(fmt.Sprintf("d%d", j))
+			}
+			locate()
+			srv.drop(srvIdx) // the attempt ends here: the peer goes away
+		}
 		var cerr error
 		select {
 		case cerr = <-done:
 		case <-time.After(15 * time.Second):
 			return ob, L(SBytes("connect-hung"), Zi(len(conns)))
 		}
+		if c.SendAfter > 0 && !c.NoDial {
+			for j := 0; j < c.SendAfter; j++ {
+				appSend(fmt.Sprintf("a%d", j))
+			}
+			locate()
+		}
+		ob.sends = append(ob.sends, sends)
 		if c.NoDial {
 			ob.errs = append(ob.errs, cerr)
 			ob.elems = append(ob.elems, nil)
@@ -431,6 +526,9 @@ func runSessionRaw(in sessIn) (*sessObs, Sx) {
 			if e.Kind == "a" || e.Kind == "presence" || e.Kind == "r" {
 				continue // post-session traffic
 			}
+			if e.Kind == "message" && strings.HasPrefix(e.A, sendMarker) {
+				continue // an application send of the scenario (C04): reported through sessObs.sends
+			}
 			if x, ok := reqSx(e); ok {
 				// third component: how many server items had been sent when the request showed up (-1: not measured)
 				sb := -1
@@ -443,6 +541,15 @@ func runSessionRaw(in sessIn) (*sessObs, Sx) {
 		conns = append(conns, L(LS(reqs), errSx(cerr), snapSx(snap), LS(answers)))
 	}
 	return ob, LS(conns)
+}
+
+func allErrNil(sends []sendObs) bool {
+	for _, so := range sends {
+		if so.Err != nil {
+			return false
+		}
+	}
+	return true
 }
 
 func snapSx(s sessSnap) Sx {
